@@ -391,6 +391,11 @@ func (C10) Judge(c *Ctx, sc *Scenario) []Violation {
 			// XML scalars are printed without a newline: where a comment lands also decides where lines break
 			diff = "comments-only"
 		}
+		if diff == "content" && readsComments(raw) {
+			// head_comment / line_comment / foot_comment as getters turn comment placement into content: the
+			// position-dependent attachment of comments (known finding) then shows up in the values
+			diff = "comment-getter"
+		}
 		// (whether a comment only moved or was also lost/duplicated is not told apart: which comments an encoder
 		// prints for a document depends on the document's position in many ways - leading content vs head comment
 		// of the first key vs foot comment of the previous document - so no strict rule could be held; a duplicated
